@@ -30,6 +30,7 @@ import EPV.Spec.Blake
 import EPV.Lemmas.Blake
 import EPV.Lemmas.BlakeFields
 import EPV.Tactics
+import EPV.Lemmas.Bridge.DetonTactics
 
 set_option linter.all false
 
@@ -55,6 +56,9 @@ theorem L1_strain_rr_shape (p : BlakeFields.P) (r t : ℝ) :
       (r * bb p * cL p ^ 2) := by
   unfold bb nn cL
   simp only [epv_leaf]
+  -- (proof only: the equality holds up to ring normalisation inside and outside the exp / sin / cos / pow atoms,
+  -- so a harmless reassociation of the Python formula does not break it; the two exponentials stay separate atoms)
+  epv_deton_nf_eq
 
 theorem dflt_nn : nn dflt = 100000 / 3 := by
   unfold nn
